@@ -322,7 +322,7 @@ func c12Kinds(r *R) {
 	num := func(n string) string { return frozenMsgTypes[n] }
 	type pred struct {
 		recv, v, name string
-		accept         []string
+		accept        []string
 	}
 	preds := []pred{
 		{"TransferRequest1_1", "trq", "IsNew", []string{"NewMessage"}}, {"TransferRequest1_1", "trq", "IsUpdate", []string{"UpdateMessage"}},
